@@ -189,6 +189,29 @@ def RefPoly.inf (p : RefPoly) (e : LinExpr) : Sup :=
   | .val a b att => .val (-a) b att
   | s => s
 
+/-- relation with the proper congruence `e ≡ 0 (mod m)`, `m > 0`: (disjoint, included).
+    The values of `e` on the set form an interval `I`; the set is included iff `I` is a single
+    multiple of `m` (or empty), disjoint iff `I` contains no multiple of `m`. -/
+def RefPoly.relCongruence (p : RefPoly) (e : LinExpr) (m : Int) : Bool × Bool :=
+  match p.sup e, p.inf e with
+  | .empty, _ => (true, true)
+  | _, .empty => (true, true)
+  | .val a b attU, .val c d attL =>
+    -- interval from c/d to a/b
+    if a * d == c * b then
+      -- constant value a/b (attained): multiple of m iff b*m ∣ a
+      let isMult := decide (a % (b * m) = 0)
+      (!isMult, isMult)
+    else
+      -- smallest multiple of m that is ≥ c/d (or > c/d when not attained): t = m * ⌈c/(d m)⌉
+      let q := Int.fdiv c (d * m)
+      let t0 := if q * (d * m) == c then (if attL then q else q + 1) else q + 1
+      -- is m*t0 ≤ a/b (or < when not attained)?
+      let lhs := m * t0 * b
+      let inside := if attU then decide (lhs ≤ a) else decide (lhs < a)
+      (!inside, false)
+  | _, _ => (false, false)   -- unbounded in some direction: multiples of m are met, never included
+
 /-- the recession cone is trivial (for a non-empty set: bounded) -/
 def RefPoly.isBounded (p : RefPoly) : Bool :=
   p.isEmpty ||
